@@ -33,6 +33,11 @@ func init() {
 			}
 			return []vsched.Variant{
 				{Name: "race", Bound: b + 1, Delay: true, Shards: 8, BudgetS: 100},
+				// same race under the other default order (newest thread first): the default schedule
+				// follows Shutdown's fan-out (Shutdown -> hub.shutdown -> shard pass) to its end before
+				// the connect thread resumes, so "shutdown pass overtakes a connect in flight" costs one
+				// deviation instead of one per hand-off
+				{Name: "race-lifo", Bound: b + 1, Delay: true, LIFO: true, Shards: 8, BudgetS: 100},
 				{Name: "after-generic", Bound: 0, BudgetS: 30},
 				{Name: "after-sse", Bound: 0, BudgetS: 30},
 				{Name: "after-http_stream", Bound: 0, BudgetS: 30},
@@ -107,7 +112,7 @@ func shutdownxBody(variant string) func() {
 		}
 
 		switch variant {
-		case "race":
+		case "race", "race-lifo":
 			vsched.Quiet(false)
 			var wg sync.WaitGroup
 			wg.Add(2)
@@ -137,13 +142,13 @@ func shutdownxBody(variant string) func() {
 		}
 		vsched.Logf("variant=%s connects=%d(before %d) hubClients=%d stillConnected=%d", variant, connects, connectsBefore, n.hub.NumClients(), stillConnected)
 		kind := "race"
-		if variant != "race" {
+		if variant != "race" && variant != "race-lifo" {
 			kind = variant[len("after-"):]
 		}
 		if n.hub.NumClients() != 0 || stillConnected != 0 {
 			vsched.Failf("connection-survives-shutdown:"+kind, "after Shutdown returned and everything settled %d connections are registered in the hub and %d report themselves connected (%s)", n.hub.NumClients(), stillConnected, fmt.Sprint(variant))
 		}
-		if variant != "race" && connects != connectsBefore {
+		if kind != "race" && connects != connectsBefore {
 			vsched.Failf("connect-callback-after-shutdown:"+kind, "the connect callback ran for a connection attempt made after Shutdown returned (%s entry point)", kind)
 		}
 	}
